@@ -25,6 +25,7 @@ A statement outside this vocabulary is an AnalysisError (exit 2).
 from __future__ import annotations
 
 import ast
+import re
 from typing import Any, Dict, List, Optional, Tuple
 
 from .consteval import ConstEval, NotConstant
@@ -33,6 +34,9 @@ from .repo import AnalysisError, FuncInfo, Repo, attr_chain, norm
 
 REL = "_tokenizer.py"
 
+
+# `self.temporaryBuffer[.lower() | .translate(asciiUpper2Lower)] == 'script'` -- group 1 = the case folding, if any
+TMP_SCRIPT_RE = re.compile(r"self\.temporaryBuffer(\.lower\(\)|\.translate\(asciiUpper2Lower\))? == 'script'")
 
 class Sym:
     """symbolic string: concatenation of parts"""
@@ -103,6 +107,7 @@ class TokenizerModel:
         self.idiom_hits: Dict[str, int] = {}
         self.charsuntil_sites: List[Tuple[str, int, frozenset, bool]] = []
         self.appropriate_exprs: Dict[str, ast.AST] = {}
+        self.tmp_script_tests: Dict[str, list] = {}
         self._check_emit_current_token()
         for name, m in self.cls.methods.items():
             if self._is_state_method(m):
@@ -146,7 +151,7 @@ class TokenizerModel:
         dims = []
         if "appropriate" in src:
             dims.append("appropriate")
-        if "temporaryBuffer.lower() == 'script'" in src:
+        if TMP_SCRIPT_RE.search(src):
             dims.append("tmp_is_script")
         if "matched" in src:
             dims.append("matched")
@@ -187,7 +192,9 @@ class TokenizerModel:
 
         def guard_hook(node, env, interp):
             t = norm(node)
-            if t == "self.temporaryBuffer.lower() == 'script'":
+            mm = TMP_SCRIPT_RE.fullmatch(t)
+            if mm and "tmp_is_script" in extra:
+                model.tmp_script_tests.setdefault(sname, []).append((node, bool(mm.group(1))))
                 return extra["tmp_is_script"]
             if t == "matched" and "matched" in extra and isinstance(env.get("matched"), Opaque):
                 return extra["matched"]
@@ -501,7 +508,19 @@ class TokenizerModel:
         self.cdata_eof_exit = facts.pop("eof") or any(
             isinstance(n, ast.If) and "EOF" in norm(n.test) and any(isinstance(x, ast.Break) for x in n.body) for n in ast.walk(m.node))
         bad = [k for k, v in facts.items() if not v]
-        if bad and not (bad == ["terminator"] and "data[-1][-2:] == ']]'" in src):
+        # the terminator: `if <last piece ends with ]]>: <last piece> = <last piece without the two brackets>; break`
+        self.cdata_terminator = None
+        for n in ast.walk(m.node):
+            if isinstance(n, ast.If) and "']]'" in norm(n.test) and n.body and isinstance(n.body[-1], ast.Break):
+                strips = [x for x in n.body if isinstance(x, ast.Assign) and norm(x.targets[0]) == "data[-1]"]
+                t, s_ = norm(n.test), (norm(strips[0].value) if strips else None)
+                self.cdata_terminator = {
+                    "line": n.lineno, "test": t, "strip": s_,
+                    "test_ok": t in ("data[-1][-2:] == ']]'", "data[-1].endswith(']]')"),
+                    "strip_ok": s_ == "data[-1][:-2]",
+                    "strip_wrong": s_ is None or "strip(" in (s_ or "") or
+                    (s_.startswith("data[-1][:-") and s_.endswith("]") and s_ != "data[-1][:-2]")}
+        if bad and not (bad == ["terminator"] and self.cdata_terminator is not None):
             raise AnalysisError("cdataSectionState is not the recognised idiom (missing: %s)" % bad)
         self.irregular[sname] = "cdata-section"
         self.idiom_hits["cdata-section"] = 1
